@@ -343,11 +343,28 @@ def append_log(bdir, out, start, h):
         f.write((json.dumps({"o": out, "mtime": start, "hash": h}) + "\n").encode())
 
 
+def state_dir(bdir, mf):
+    """where the build log lives: the manifest's top-level `builddir` (relative to the directory ninja runs in), created
+    on demand as ninja does; the build directory itself when the variable is not set"""
+    sub = mf.globals.get("builddir", "") if mf is not None else ""
+    if not sub:
+        return bdir
+    d = os.path.join(bdir, sub)
+    os.makedirs(d, exist_ok=True)
+    return d
+
+
 def run_tool(world, bdir, tool, argv):
     """`ninja -t <tool>`: only what has been seen in the wild is modelled; anything else is a harness error."""
     if tool == "restat":
         # BuildLog::Restat: every logged output's recorded mtime becomes its current on-disk mtime (0 if missing)
-        log = load_log(bdir)
+        try:
+            with open(os.path.join(bdir, "build.ninja"), "r", newline="") as f:
+                mf = Manifest(f.read())
+        except (OSError, UnicodeDecodeError, ManifestError):
+            mf = None
+        log_dir = state_dir(bdir, mf)
+        log = load_log(log_dir)
         if not log:
             return 0
         lines = []
@@ -357,7 +374,7 @@ def run_tool(world, bdir, tool, argv):
             except OSError:
                 m = 0
             lines.append(json.dumps({"o": o, "mtime": m, "hash": ent["hash"]}))
-        with open(os.path.join(bdir, LOG_NAME), "wb") as f:
+        with open(os.path.join(log_dir, LOG_NAME), "wb") as f:
             f.write(("\n".join(lines) + "\n").encode())
         return 0
     raise Unsupported("ninja -t " + tool)
@@ -522,7 +539,8 @@ class SimNinja:
             res.rc, res.error = 1, "manifest: %s" % x
             return res
         res.n_edges = len(mf.edges)
-        log = load_log(bdir)
+        logdir = state_dir(bdir, mf)
+        log = load_log(logdir)
         dirty, missing = self.compute_dirty(mf, log)
         unwanted = set()
         if self.targets:
@@ -873,7 +891,7 @@ class SimNinja:
                     if node_cleaned:
                         record_mtime = start_ns
                 for o in e.outs:
-                    append_log(bdir, o, record_mtime, h)
+                    append_log(logdir, o, record_mtime, h)
                     log[o] = {"o": o, "mtime": record_mtime, "hash": h}
                     try:
                         st = os.stat(os.path.join(bdir, o))
